@@ -421,6 +421,19 @@ def draw_edit(st, rnd: random.Random) -> dict:
         op["style"] = rnd.choice(IMPORT_STYLES)
     if kind == "add_module":
         op["mod"] = "m%d" % (100 + fresh(st))
+    if kind == "add_module_acyclic":
+        # sorts before every module (anybody may import it) or after every module (it may import anybody):
+        # the import graph stays acyclic in the sorted-name order used by make_acyclic
+        op["mod"] = "%s%d" % (rnd.choice(["a", "z"]), 100 + fresh(st))
+    if kind == "add_import_acyclic":
+        pairs = [(a, b) for a in mods for b in mods if b < a and b not in st["mods"][a]["imports"] and not a.startswith(b + ".") and not b.startswith(a + ".")]
+        if pairs:
+            op["mod"], op["dep"] = rnd.choice(pairs)
+            op["style"] = rnd.choice(IMPORT_STYLES)
+    if kind == "delete_module_flat":
+        flat = [x for x in mods if "." not in x and not any(o.startswith(x + ".") for o in mods)]
+        if flat:
+            op["mod"] = rnd.choice(flat)
     if kind == "rename_module":
         op["new"] = "r%d" % (100 + fresh(st))
     return op
@@ -445,11 +458,33 @@ def apply_edit(st, op) -> bool:
             st["mods"][imp]["imports"][mod] = rnd.choice(["import", "from"])
             add_use(st, rnd, imp)
         return True
+    if kind == "add_module_acyclic":
+        if mod in st["mods"]:
+            return False
+        others = sorted(st["mods"])
+        st["mods"][mod] = {"exports": {}, "uses": [], "imports": {}, "broken": False, "layout": "module", "stub": None}
+        for _ in range(2):
+            add_export(st, rnd, mod)
+        if others and mod.startswith("z"):
+            st["mods"][mod]["imports"][rnd.choice(others)] = rnd.choice(["import", "from"])
+            add_use(st, rnd, mod)
+        elif others:
+            imp = rnd.choice(others)
+            st["mods"][imp]["imports"][mod] = rnd.choice(["import", "from"])
+            add_use(st, rnd, imp)
+        return True
     if mod not in st["mods"]:
         return False
     m = st["mods"][mod]
     before = json.dumps(st, sort_keys=True)
-    if kind == "change_export" and op.get("name") in m["exports"]:
+    if kind == "add_import_acyclic":
+        if op.get("dep") in st["mods"] and op["dep"] < mod and op["dep"] not in m["imports"]:
+            m["imports"][op["dep"]] = op["style"]
+            add_use(st, rnd, mod)
+    elif kind == "delete_module_flat":
+        if "." not in mod and not any(o.startswith(mod + ".") for o in st["mods"]) and len(st["mods"]) > 2:
+            del st["mods"][mod]
+    elif kind == "change_export" and op.get("name") in m["exports"]:
         e = m["exports"][op["name"]]
         field = rnd.choice(["p", "r", "t", "t2", "ok"])
         e[field] = (not e["ok"]) if field == "ok" else rnd.choice(TYPES)
@@ -603,6 +638,11 @@ PROFILES = {
 # star imports and __all__ on top of "structure"
 PROFILES["structure-star"] = {"edits": PROFILES["structure"]["edits"] + ["toggle_all", "toggle_all_member", "toggle_all_member"],
                               "styles": PROFILES["structure"]["styles"] + ["star", "star"], "kinds": PROFILES["structure"]["kinds"]}
+
+
+# files appear and disappear and import edges are added, all without ever closing an import cycle
+PROFILES["structure-files"] = {"edits": PROFILES["structure"]["edits"] + ["add_module_acyclic", "add_module_acyclic", "add_import_acyclic", "add_import_acyclic", "delete_module_flat", "delete_module_flat"],
+                               "styles": PROFILES["structure"]["styles"], "kinds": PROFILES["structure"]["kinds"]}
 
 
 def history(seed: int, nmods: int, nsteps: int, profile: str | None = None):
